@@ -173,6 +173,20 @@ PROPS["C11"] = dict(
                  "with two loops, registering an interest for an already existing child is not generated (its race with a concurrent reap has no defined outcome)"],
     level_text="exploration of generated child populations, state-change sequences and schedules; the reference is what the library itself was handed by wait4, so kernel merging of states cannot cause a mismatch",
     level_note=_MT_NOTE, technique=_MT_TECH, design_ref="DESIGN.md section 3 (C11)")
+INO_LABELS = ["read_with_3_or_more_records", "unregister_with_records_still_unparsed", "unregister_own_watch_in_handler", "unregister_other_watch_in_handler",
+              "unregister_instance_in_handler", "oneshot_watch", "kernel_removed_watch", "reregister_same_struct_in_handler", "event_with_name", "two_instances",
+              "method_epoll_timerfd", "method_epoll", "method_ppoll", "method_poll", "records_suppressed", "instance_unregistered_before_first_event",
+              "unknown_wd_record", "fs_ops_inside_handler"]
+PROPS["C20"] = dict(
+    level="exploration", labels=INO_LABELS, engine="ino",
+    campaigns=[("ino", [], 16000, 320000)],
+    min_conclusive=150,
+    rule="cases = 1-2 iv_inotify instances (heap allocated, non-zeroed) with up to 5 watches each on a per-case scratch directory, its files and a sub-directory, masks incl. IN_ONESHOT; generated bursts of 1-12 file-system operations (create, append, truncate, rename, unlink, mkdir, rmdir, open/read, chmod) from a timer chain and from inside handlers; handler scripts unregister their own watch, another watch, the whole instance, or re-register a dropped watch struct from its own handler; reference = the byte stream returned by the library's own read() of the inotify descriptor (captured at the libc boundary): each record must be delivered, in order, to exactly the watch whose descriptor it carries, with identical wd/mask/cookie/name, unless that watch or the instance has been unregistered by then (then it must NOT be delivered); one-shot and IN_IGNORED watches are already dropped when their handler runs (the struct is reused/freed there); the loop may not block while the kernel still has events queued; everything freed at unregister (ASan); non-trivial = one read carried >=3 records AND a handler unregistered something while records for it were still unparsed; distinct = hash(executed actions)",
+    assumptions=["the running kernel's inotify semantics (coalescing, IN_IGNORED generation) are taken as they come: the reference is what the kernel handed to the library", "one watch per inode and instance (the API cannot represent two)"],
+    level_text="exploration of generated watch sets, file-system bursts and handler scripts on real inotify instances; record-by-record comparison with the kernel's own stream",
+    level_note="trusted: the record bookkeeping in harness/t_ino.c, interposition of read() at the libc boundary, the running kernel's inotify; ASan/UBSan.",
+    technique="property-based testing: seeded generated file-system operation bursts and handler scripts; differential oracle against the raw kernel event stream; choice-sequence shrinking",
+    design_ref="DESIGN.md section 3 (C20)")
 
 ENGINES = [
     dict(name="vfz", path="harness/vfz.c", serves_properties=["C01", "C02", "C03", "C04", "C06", "C07"],
@@ -189,6 +203,7 @@ ENGINES.append(dict(name="vsched", path="harness/vsched.c", serves_properties=["
 ENGINES.append(dict(name="mt", path="harness/t_mt.c", serves_properties=["C08", "C12", "C13"], kind_free_text="multi-threaded scenario programs: owners, posters, work pool, iv_thread children"))
 ENGINES.append(dict(name="sig", path="harness/t_sig.c", serves_properties=["C10"], kind_free_text="iv_signal scenarios on engine B with an obligation-model oracle"))
 ENGINES.append(dict(name="wait", path="harness/t_wait.c", serves_properties=["C11"], kind_free_text="iv_wait scenarios with virtual children (fork/wait4/kill interposed) on engine B"))
+ENGINES.append(dict(name="ino", path="harness/t_ino.c", serves_properties=["C20"], kind_free_text="iv_inotify on real inotify instances, reference = the stream read() returned to the library"))
 NOT_APPLICABLE = {}
 
 for _pid, _txt in {
